@@ -441,7 +441,7 @@ def entries_check(lib_raw=None):
                 failures.append(fail(name, 'C07.entry-is-not-memoised.%s' % name, 'public entry %s carries #[%s]: its wrapper runs before init()' % (name, a_), ['C07', 'C17', 'C15', 'C20'],
                                      Dummy('sv-parser-parser/src/lib.rs', pre.count('\n') + 1)))
         if not re.match(r'init\([^;]*\);', re.sub(r'\s+', '', body)):
-            failures.append(fail(name, 'C07.entry-calls-init-first.%s' % name, 'public entry %s does not call init() first' % name, ['C07', 'C17', 'C15'], Dummy('sv-parser-parser/src/lib.rs', lib_raw[:lib_raw.index('pub fn ' + name)].count('\n') + 1)))
+            failures.append(fail(name, 'C07.entry-calls-init-first.%s' % name, 'public entry %s does not call init() first' % name, ['C07', 'C17', 'C15', 'C20'], Dummy('sv-parser-parser/src/lib.rs', lib_raw[:lib_raw.index('pub fn ' + name)].count('\n') + 1)))
     # Error::Parse is the report of the STRICT parsers and of nothing else: it is constructed in parse_sv_pp / parse_lib_pp (unit
     # wrap proves: only from a parser Err, hence never in incomplete mode) and nowhere else in the six crates.  parse_*_str run the
     # preprocessor first: if the preprocessor (or anything else) constructed Error::Parse, incomplete mode could report it
@@ -1364,6 +1364,7 @@ ASSUMED_LEXERS = {
     'C05': _PP_COMMON + _PP_MACRO + _PP_USAGE,
     'C06': _PP_COMMON + _PP_KEPT,
     'C10': _PP_COMMON + _PP_INC + _PP_USAGE[:1],
+    'C17': ['ws', 'no_ws', 'symbol', 'symbol_exact', 'keyword', 'white_space'],      # the token combinators decide how often the white space (and a directive inside it) after a token is lexed: with the version stack outside the memo key (K7) that is observable
     'C09': _PP_COMMON + _PP_INC + _PP_USAGE + _PP_MACRO,        # 'chains of legal depth yield the fully expanded text'
     'C11': _PP_COMMON + _PP_MACRO + ['undefine_compiler_directive', 'undefineall_compiler_directive'],
     'C18': _PP_COMMON + _PP_KEPT[:0] + ['macro_text', 'text_macro_definition'],
